@@ -5,6 +5,7 @@ import Asn1.Generated
 import Proofs.Fuel
 import Proofs.Parse
 import Proofs.StrictEverywhere
+import Proofs.KernelLen
 
 namespace Asn1.C15
 
@@ -132,6 +133,23 @@ theorem strict_boolean_cer_der (h : Bytes) (tg : Tag) (c : Bytes) (v : Val) :
     (decPrim Generated.derDecByType .boolean (.prim h tg c) = .ok v →
       (c = [0x00] ∧ v = .bool false) ∨ (c = [0xFF] ∧ v = .bool true)) :=
   ⟨strict_boolean _ (by decide) h tg c v, strict_boolean _ (by decide) h tg c v⟩
+
+/-- **the strict BOOLEAN decoder, at the source level**: the body of `cer.decoder.BooleanPayloadDecoder.valueDecoder`
+    (translated from the working tree on this run into `GenK.cerBool`; the octets its stream read delivers are the
+    argument) answers exactly when the contents are the single octet `00` or `FF` - whatever their length -/
+theorem source_strict_boolean (c : Bytes) (r : Int) (h : GenK.cerBool (c.length : Int) (Kernels.bytesInts c) = .ok r) :
+    (c = [0x00] ∧ r = 0) ∨ (c = [0xFF] ∧ r = 1) := by
+  rw [Kernels.cerBool_kernel Generated.derDecByType (by decide) [] ⟨.universal, false, 1⟩ c] at h
+  cases hd : decPrim Generated.derDecByType .boolean (.prim [] ⟨.universal, false, 1⟩ c) with
+  | error e => rw [hd] at h; simp [Kernels.liftBool] at h
+  | ok v =>
+    rcases strict_boolean _ (by decide) _ _ c v hd with ⟨hc, hv⟩ | ⟨hc, hv⟩
+    · subst hv; rw [hd] at h; simp only [Kernels.liftBool, Except.ok.injEq] at h; exact Or.inl ⟨hc, h.symm⟩
+    · subst hv; rw [hd] at h; simp only [Kernels.liftBool, Except.ok.injEq] at h; exact Or.inr ⟨hc, h.symm⟩
+
+example : GenK.cerBool 1 [255] = .ok 1 := by rfl
+example : GenK.cerBool 2 [255, 0] = .error (.lib "PyAsn1Error") := by rfl
+example : GenK.cerBool 1 [1] = .error (.lib "PyAsn1Error") := by rfl
 
 /-! ### wherever the offending element occurs
 
